@@ -129,7 +129,11 @@ func (requestBody *RequestBody) Validate(ctx context.Context, opts ...Validation
 	}
 
 	if vo := getValidationOptions(ctx); !vo.examplesValidationDisabled {
-		vo.examplesValidationAsReq, vo.examplesValidationAsRes = true, false
+		// examples below here are read in this direction: the options in the context may be absent or
+		// shared with the rest of the document, so the direction goes into a copy of them
+		directed := *vo
+		directed.examplesValidationAsReq, directed.examplesValidationAsRes = true, false
+		ctx = context.WithValue(ctx, validationOptionsKey{}, &directed)
 	}
 
 	if err := requestBody.Content.Validate(ctx); err != nil {
